@@ -142,6 +142,12 @@ Proof.
 Qed.
 Print Assumptions C18_reject_other_curve.
 
+(* (EvaluatorRound4's output decoding, model [decode_outputs]: an evaluator
+   label that is neither hint of its output wire is an error on ANY of the 256
+   wires, not only the last.  The harness feeds tampered Round3 hints and the
+   honest output labels to run_c18 kind 8 and compares with the real
+   EvaluatorRound4: correspondence, plus the digest oracle.) *)
+
 (* a message or state of another session is an error in the consuming round
    (the decoders cannot know the expected id), for ALL opaque crypto functions;
    likewise a Round1 message naming another curve *)
